@@ -864,7 +864,7 @@ impl<'a> Parser<'a> {
                                 ix += 1;
                                 break;
                             }
-                            b'\\' => ix += 2,
+                            b'\\' if ix + 1 < self.re.len() => ix += 2,
                             _ => ix += 1,
                         }
                     }
